@@ -375,6 +375,7 @@ def mutate(case, rng):
 THEOREMS = [
     "HappyModel.C16.Tier.multitier_size_le_capacity",
     "HappyModel.C16.Tier.multitier_policy_keys_eq_cache_keys",
+    "HappyModel.C16.Tier.multitier_read_after_write_all_interleavings",
     "HappyModel.C16.Tier.multitier_read_after_write_sequential",
     "HappyModel.C16.Tier.multitier_stale_promotion_current",
 ]
@@ -398,12 +399,9 @@ HYPOTHESES = [
     "multitier theorems: any number of tiers, every tier capacity ≥ 1 (the CachedStore constructor rejects less), every tier policy "
     "made by Pol.ofName, one policy per configured tier; multitier_size_le_capacity / multitier_policy_keys_eq_cache_keys hold for both "
     "variants, both write modes and either variant of the tiers",
-    "multitier_read_after_write_sequential: repaired variant (fixes/C16-multitier-consistency.diff), every tier a repaired write-through "
-    "CachedStore (SeqCfg)",
+    "multitier_read_after_write_all_interleavings, multitier_read_after_write_sequential: repaired variant "
+    "(fixes/C16-multitier-consistency.diff), every tier a repaired write-through CachedStore (SeqCfg); the all-interleavings theorem "
+    "further assumes what its statement lists: unique operation ids, every first segment in the schedule is that of its table entry, "
+    "no id started twice (resumes of ids with nothing pending are allowed anywhere)",
 ]
-PARTIAL = {
-    "HappyModel.C16.Tier.multitier_read_after_write_sequential": "the full statement multitier_read_after_write_full (TierProps.lean, a "
-    "def … : Prop) quantifies over every interleaving of operation segments; proved only for schedules in which operations do not overlap "
-    "(direct tier reads included), write-through tiers. Overlapping schedules are covered by the Spec judge on implementation transcripts "
-    "in every run and by the decided witness multitier_stale_promotion_current (current variant stale, repaired variant passes on the same schedule).",
-}
+PARTIAL = {}
